@@ -142,7 +142,24 @@ var vfChunkNames = map[int]string{0: "data", 64: "idata", 1: "init", 2: "initack
 // vfChunkJSON renders one chunk as a JSON-ready map. txBase is the initial TSN of the packet's
 // sender, rxBase the initial TSN of the packet's receiver (used for acknowledgement fields).
 // ident maps a DATA payload to (message id, fragment index); may be nil.
+// vfSeqBase: per-stream presets of the sender's SSN / MID counters (white-box presets used to reach
+// the 16/32-bit wraps quickly); sequence numbers are reported relative to them.
+type vfSeqBase struct {
+	ssn uint16
+	mid uint32
+}
+
 func vfChunkJSON(c vfChunk, txBase, rxBase uint32, ident func(sid int, payload []byte, b, e bool) (int, int)) (m map[string]any, problems []string) {
+	return vfChunkJSONb(c, txBase, rxBase, ident, nil)
+}
+
+func vfChunkJSONb(c vfChunk, txBase, rxBase uint32, ident func(sid int, payload []byte, b, e bool) (int, int), seqb func(sid int) vfSeqBase) (m map[string]any, problems []string) {
+	sb := func(sid int) vfSeqBase {
+		if seqb == nil {
+			return vfSeqBase{}
+		}
+		return seqb(sid)
+	}
 	name, known := vfChunkNames[c.Typ]
 	if !known {
 		name = "unknown"
@@ -176,13 +193,13 @@ func vfChunkJSON(c vfChunk, txBase, rxBase uint32, ident func(sid int, payload [
 		payload := v[hdr:]
 		m["len"] = len(payload)
 		if c.Typ == 0 {
-			m["ssn"] = u16(6)
+			m["ssn"] = int(int16(uint16(u16(6)) - sb(u16(4)).ssn))
 			m["mid"] = 0
 			m["fsn"] = 0
 			m["ppi"] = int(u32(8))
 		} else {
 			m["ssn"] = 0
-			m["mid"] = int(int32(u32(8)))
+			m["mid"] = int(int32(u32(8) - sb(u16(4)).mid))
 			if b {
 				m["ppi"] = int(u32(12))
 				m["fsn"] = 0
@@ -350,7 +367,7 @@ func vfChunkJSON(c vfChunk, txBase, rxBase uint32, ident func(sid int, payload [
 		}
 		st := []any{}
 		for o := 4; o+4 <= len(v); o += 4 {
-			st = append(st, []any{u16(o), u16(o + 2)})
+			st = append(st, []any{u16(o), int(int16(uint16(u16(o+2)) - sb(u16(o)).ssn))})
 		}
 		m["streams"] = st
 	case 194:
@@ -367,7 +384,7 @@ func vfChunkJSON(c vfChunk, txBase, rxBase uint32, ident func(sid int, payload [
 			if u16(o+2)&1 != 0 {
 				uflag = 1
 			}
-			st = append(st, []any{u16(o), uflag, int(int32(u32(o + 4)))})
+			st = append(st, []any{u16(o), uflag, int(int32(u32(o+4) - sb(u16(o)).mid))})
 		}
 		m["streams"] = st
 	default:
